@@ -94,6 +94,8 @@ def run(ctx):
                 v_ = make_sim(kind, seed + 5, variant=1); v_.run(); c2 = make_sim(kind, seed); c2.run(); compare('a sim of the same kind with other data run before (same process)', fingerprint(c2))
                 o2 = make_sim(kind, seed + 1); o2.init(); d_ = make_sim(kind, seed); d_.init(); o2.run(); d_.run(); compare('another sim initialised before and run in between', fingerprint(d_))
                 e = make_sim(kind, seed); e2 = copy.deepcopy(e); e.run(); e2.run(); compare('deep-copied twin run afterwards', fingerprint(e2))
+                h = make_sim(kind, seed); h.init(); h2 = copy.deepcopy(h); h.run(); h2.run(); compare('twin deep-copied after init, original run first', fingerprint(h2)); compare('initialised sim run after being deep-copied', fingerprint(h))
+                h = make_sim(kind, seed); h.init(); h2 = copy.deepcopy(h); h2.run(); h.run(); compare('twin deep-copied after init, twin run first', fingerprint(h))
                 # a perturbation of the process-wide generator at a loop-function boundary
                 class Poke(ss.Analyzer):
                     def step(self): np.random.random(3)
@@ -109,7 +111,9 @@ def run(ctx):
                 dy = y.dists.dists.get(tr)
                 if dy is None: continue
                 try:
-                    vx = np.asarray(dx.rng.random(8)); vy = np.asarray(dy.rng.random(8))
+                    try: vx = np.asarray(dx.rvs(8), dtype=float); vy = np.asarray(dy.rvs(8), dtype=float)      # through the distribution itself (NumPy or SciPy sampler)
+                    except Exception: vx = np.asarray(dx.rng.random(8)); vy = np.asarray(dy.rng.random(8))
+                    if type(dx).__name__ in ('constant', 'bernoulli', 'randint', 'poisson', 'choice') or len(np.unique(vx)) < 3: vx = np.asarray(dx.rng.random(8)); vy = np.asarray(dy.rng.random(8))
                 except Exception: continue
                 ctx.count(('seedchange', kind, tr));
                 if np.array_equal(vx, vy): viol(f'{kind}: distribution {tr} has the same stream under seeds {seed} and {seed + 1}', dict(W, trace=tr))
